@@ -37,6 +37,7 @@ type wgFunc struct {
 	reads  []int // indices into vars
 	calls  []int // indices of earlier helpers
 	isEntry bool
+	bump    uint32 // entry points: `wp(&w0, bump); acc = acc + w0;` at the end (a store through a ptr<workgroup, u32> parameter)
 }
 
 func (c *ctx) genWG() (string, []wgFunc, []wgVar) {
@@ -79,6 +80,11 @@ func (c *ctx) genWG() (string, []wgFunc, []wgVar) {
 		if len(e.calls) == 0 && len(e.reads) == 0 {
 			e.calls = []int{c.rng.Intn(nh)}
 		}
+		for _, v := range vars {
+			if v.name == "w0" && c.chance(0.5) {
+				e.bump = uint32(1 + c.rng.Intn(100))
+			}
+		}
 		entries[i] = e
 	}
 	var b strings.Builder
@@ -119,8 +125,13 @@ func (c *ctx) genWG() (string, []wgFunc, []wgVar) {
 		for _, cl := range f.calls {
 			sb.WriteString(once("  acc = acc + " + helpers[cl].name + "();\n"))
 		}
+		if f.bump > 0 {
+			// after every read of w0 that expects zero: the store must go through the pointer parameter
+			fmt.Fprintf(&sb, "  wp(&w0, %du);\n  acc = acc + w0;\n", f.bump)
+		}
 		return sb.String()
 	}
+	b.WriteString("fn wp(p: ptr<workgroup, u32>, v: u32) {\n  *p = *p + v;\n}\n")
 	// helpers in dependency order (WGSL allows any order; naga's arena order follows the text)
 	for _, h := range helpers {
 		fmt.Fprintf(&b, "fn %s() -> u32 {\n%s  return acc;\n}\n", h.name, body(h))
@@ -133,7 +144,7 @@ func (c *ctx) genWG() (string, []wgFunc, []wgVar) {
 }
 
 func wgValue(fs []wgFunc, f wgFunc) uint32 {
-	v := f.konst
+	v := f.konst + f.bump
 	for _, cl := range f.calls {
 		v += wgValue(fs, fs[cl])
 	}
